@@ -122,58 +122,25 @@ let () =
                 destination no write or flush has a reason to fail (WriteThrough, which refuses a non-empty
                 buffer, is left out) *)
              Some "a write or flush failed although the destination works and at most one extension is attached"
-           else if fail = "-" && List.length exts <= 1
-                   && List.exists (function WSetExt _ -> true | _ -> false) ops_l
-                   && List.for_all (function WSetExt xs -> List.length xs <= 1 | WReset _ | WResetOp _ | WDisableFlush -> false | _ -> true) ops_l
-                   && List.for_all (fun ob -> ob.o_err = None) gobs
-                   && (let rec rest_points prev = function
-                         | [] -> true
-                         | st :: r -> (match st.s_op with
-                             | WSetExt _ -> (match prev with None -> true | Some p -> p.s_op = WFlush && int_of_n p.s_obs.o_buffered = 0) && rest_points (Some st) r
-                             | _ -> rest_points (Some st) r) in
-                       rest_points None steps) then begin
-             (* SetExtensions between two messages (right after a final flush, or before the first write): from there on
-                the writer is one with the NEW extension list - possibly the empty one - so every segment between two
-                such calls is judged by the history monitor with the extensions attached during it *)
-             let rec drop n l = if n <= 0 then l else match l with [] -> [] | _ :: r -> drop (n-1) r in
-             let rec segs cur_exts cur_size base acc segsacc = function
-               | [] -> List.rev ((cur_exts, cur_size, base, List.rev acc) :: segsacc)
-               | st :: r -> (match st.s_op with
-                   | WSetExt xs -> segs xs st.s_obs.o_size (int_of_n st.s_obs.o_calls) [] ((cur_exts, cur_size, base, List.rev acc) :: segsacc) r
-                   | _ -> segs cur_exts cur_size base (st :: acc) segsacc r) in
-             let all = segs exts w0.w_buflen 0 [] [] steps in
-             let ok = List.for_all (fun (xs, size, base, sts) ->
-               sts = [] ||
-               (let last_calls = int_of_n (List.nth sts (List.length sts - 1)).s_obs.o_calls in
-                let sts2 = List.map (fun st -> { st with s_obs = { st.s_obs with o_calls = ni (int_of_n st.s_obs.o_calls - base) } }) sts in
-                let log2 = K_reader.take_n (last_calls - base) (drop base log) in
-                c06_monitor client op (List.exists (fun x -> x) xs) size sts2 log2)) all in
-             if ok then None
-             else Some "with SetExtensions between messages: a message is not one well-formed message carrying exactly the reserved bits of the extensions attached at that time"
+           else if (fail = "-" || List.for_all (fun ob -> ob.o_err = None) gobs)
+                   && List.exists (function WSetExt _ | WResetOp _ -> true | _ -> false) ops_l
+                   && WriterSeg.c06_segments_apply exts steps then begin
+             (* SetExtensions between two messages, ResetOp anywhere: the history is cut at those calls and every
+                segment is judged by the history monitor with the opcode, extensions and buffer size in force during
+                it. Side conditions (c06_segments_apply) and segmentation (c06_segments_verdict) are the Coq
+                definitions of model/WriterSeg.v, extracted; that a correct writer satisfies them is
+                C06_history_monitor_set_extensions (props/C06.v). (A destination set to fail later that never failed -
+                no error observed - is a working destination.) *)
+             let has_x = List.exists (function WSetExt _ -> true | _ -> false) ops_l in
+             if List.exists (fun st -> (match st.s_op with WResetOp _ -> true | _ -> false) && int_of_n st.s_obs.o_buffered <> 0) steps
+             then Some "ResetOp did not drop the unflushed bytes"
+             else if WriterSeg.c06_segments_verdict client op exts w0.w_buflen steps log then None
+             else if has_x then Some "with SetExtensions between messages: a message is not one well-formed message carrying exactly the reserved bits of the extensions attached at that time"
+             else Some "after ResetOp the writer does not send one well-formed message per flush with the new opcode (stale bytes, wrong opcode or RSV1)"
            end
-           else if List.exists (function WReset _ | WSetExt _ -> true | _ -> false) ops_l || List.length exts > 1 then None
-           else if List.exists (function WResetOp _ -> true | _ -> false) ops_l then begin
-             (* the quick opcode reset: what was buffered is dropped, then the writer behaves as a new one
-                with the new opcode, the same extensions and flush mode: judge the segment after the LAST ResetOp *)
-             let rec last_ro k best = function
-               | [] -> best
-               | st :: r -> last_ro (k+1) (match st.s_op with WResetOp _ -> Some k | _ -> best) r in
-             if List.exists (fun ob -> ob.o_err <> None) gobs then None
-             else (match last_ro 0 None steps with
-               | None -> None
-               | Some k ->
-                 let ro = List.nth steps k in
-                 let base = int_of_n ro.s_obs.o_calls in
-                 let op' = (match ro.s_op with WResetOp o -> o | _ -> op) in
-                 let rec drop n l = if n <= 0 then l else match l with [] -> [] | _ :: r -> drop (n-1) r in
-                 let steps2 = List.map (fun st -> { st with s_obs = { st.s_obs with o_calls = ni (int_of_n st.s_obs.o_calls - base) } }) (drop (k+1) steps) in
-                 let log2 = drop base log in
-                 let noflush_before = List.exists (fun st -> st.s_op = WDisableFlush) (K_reader.take_n k steps) in
-                 if int_of_n ro.s_obs.o_buffered <> 0 then Some "ResetOp did not drop the unflushed bytes"
-                 else if noflush_before then None
-                 else if c06_monitor client op' (List.exists (fun x -> x) exts) ro.s_obs.o_size steps2 log2 then None
-                 else Some "after ResetOp the writer does not send one well-formed message per flush with the new opcode (stale bytes, wrong opcode or RSV1)")
-           end
+           (* histories the segmentation does not apply to (Reset, two extensions, SetExtensions inside a message, ...):
+              compared with the model only *)
+           else if List.exists (function WReset _ | WSetExt _ | WResetOp _ -> true | _ -> false) ops_l || List.length exts > 1 then None
            else if c06_monitor client op (List.exists (fun x -> x) exts) w0.w_buflen steps log then None
            else Some "destination bytes are not one well-formed message per final flush carrying the accepted bytes" in
          (match viol with
